@@ -27,7 +27,8 @@ LEVEL_TEXT = ("Exploration: thousands of generated single-rooted trees (all shap
               "permuted numberings, non-contiguous ids, shuffled rows, root anywhere, 0-3 extra "
               "columns incl. int64/float64/object) go through sort_tree, sort_nodes/sort_nodes_ and "
               "read_swc(sort_nodes=True); each result is compared with the tag oracle. Held = held "
-              "on the executions produced.")
+              "on the executions produced."
+              "Trees whose root is not stored at position 0 are sorted too.")
 LEVEL_NOTE = ("Trusts the tag oracle (dict comparison) and pandas/numpy equality; sibling order "
               "and integer dtype width are free.")
 RULE = ("cases = (tree recipe, form in {tree, table, table-inplace, file}, id scheme, row order, "
